@@ -123,3 +123,75 @@ def run(payload):
         syms = [alpha[i - 1] for i in path]
         res.append(resolve_one(syms, payload["common"].get("prefixes", True)))
     return res
+
+
+def abstract_extracted(cs):
+    """Abstract citations returned by get_citations into Resolve.tla records (ground truth for the
+    monitors is read off the extracted attributes, never off the resolution):
+      rv   corrected reporter | volume;  pg page number / NoPage / NoGroup
+      name atoms = the distinct punctuation-stripped antecedents of the document; a party name
+      'contains' an atom iff the atom is a substring (exactly the code's `in`)"""
+    from eyecite.models import (FullCaseCitation, FullJournalCitation, FullLawCitation, IdCitation,
+                                ReferenceCitation, ShortCaseCitation, SupraCitation)
+    from eyecite.utils import strip_punct
+    import re as _re
+    antes = []
+    for c in cs:
+        if isinstance(c, (ShortCaseCitation, SupraCitation)) and c.metadata.antecedent_guess:
+            a = strip_punct(c.metadata.antecedent_guess)
+            if a not in antes:
+                antes.append(a)
+    atom = {a: f"n{i}" for i, a in enumerate(antes)}
+
+    def names(s):
+        return [atom[a] for a in antes if s and a in s]
+    out = []
+    for c in cs:
+        rec = {"k": "un", "rv": "", "pg": -2, "pl": [], "df": [], "ag": "-", "nm": [], "pin": -1, "id": ""}
+        if isinstance(c, FullCaseCitation) or isinstance(c, ShortCaseCitation):
+            rec["rv"] = f"{c.corrected_reporter()}|{c.groups.get('volume')}"
+        if isinstance(c, FullCaseCitation):
+            pg = c.groups.get("page")
+            rec.update(k="fc", pg=(-1 if pg is None else (int(pg) if str(pg).isdigit() and len(str(pg)) < 9 else -3)),
+                       pl=names(c.metadata.plaintiff), df=names(c.metadata.defendant))
+            if rec["pg"] == -3:
+                rec["id"] = str(pg)       # non-numeric page: identity by its text
+        elif isinstance(c, (FullLawCitation, FullJournalCitation)):
+            pg = c.groups.get("page") if "page" in c.groups else "nogroup"
+            rec.update(k="fl" if isinstance(c, FullLawCitation) else "fj",
+                       id=repr(sorted((k, str(v)) for k, v in c.groups.items())) + repr(sorted(e.short_name for e in c.all_editions)),
+                       pg=(-2 if pg == "nogroup" else -1 if pg is None else (int(pg) if str(pg).isdigit() and len(str(pg)) < 9 else -3)))
+        elif isinstance(c, ShortCaseCitation):
+            a = c.metadata.antecedent_guess
+            rec.update(k="sc", ag=atom[strip_punct(a)] if a else "-")
+        elif isinstance(c, SupraCitation):
+            a = c.metadata.antecedent_guess
+            rec.update(k="su", ag=atom[strip_punct(a)] if a else "-")
+        elif isinstance(c, ReferenceCitation):
+            rec.update(k="rx")
+        elif isinstance(c, IdCitation):
+            p = c.metadata.pin_cite
+            m = _re.match(r"(?:at )?(\d+)", p) if p else None
+            rec.update(k="id", pin=(-1 if not p else (int(m[1]) if m and len(m[1]) < 9 else -2)))
+        out.append(rec)
+    return out
+
+
+def run_docs(payload):
+    """resolve the list extracted from each document, and every prefix of it"""
+    from eyecite import get_citations
+    from eyecite.resolve import resolve_citations
+    res = []
+    for text in payload["items"]:
+        o = {"text": text, "raised": None, "groups": None, "prefix": [], "cites": []}
+        try:
+            cs = get_citations(text)
+            o["cites"] = abstract_extracted(cs)
+            r = resolve_citations(cs)
+            o["groups"] = project(r, cs)
+            for k in range(len(cs)):
+                o["prefix"].append(project(resolve_citations(cs[:k]), cs))
+        except Exception as ex:  # noqa: BLE001
+            o["raised"] = f"{type(ex).__name__}: {ex}"
+        res.append(o)
+    return res
